@@ -35,7 +35,7 @@ func init() {
 	}}
 	properties["C03"] = propDef{run: func(c *Ctx) *PropertyRun {
 		return pr("other", "Decided: (R5a) every use of an index parameter of Get/Remove/Insert/Set/Swap on the three lists is dominated by withinRange(index)==true; (R5b) with an out-of-range index nothing is written except the documented append (a call to Add guarded by index == size); (R23w) withinRange ≡ 0 <= i < Size() on all three; (R7) an empty variadic list leaves no nil pointer to dereference; (R12b,c,e) the linked lists' size counters move only with allocate-and-link / guarded unlink; (R23s) Sort = SortFunc(Values(), comparator) then Clear; Add; (R23c) Contains(xs...) exactness; (R20) Append ≡ Add. Not decided: that pointer surgery in the linked Insert/Remove yields the spliced sequence; traversal-direction arithmetic; array-list grow/shrink thresholds; IndexOf results."+notBehaviour,
-			c.rule("R5", ruleR5), c.rule("R7", ruleR7),
+			c.rule("R5", ruleR5), c.rule("R7", ruleR7), c.rule("R25", ruleR25), c.rule("R27", ruleR27),
 			prefixFilter(c.rule("R12", ruleR12), "R12", "SIZE: linked-list counters", 6, "R12b:lists/", "R12c:lists/", "R12e:lists/"),
 			prefixFilter(c.rule("R23", ruleR23), "R23", "LISTS: Contains, Sort, withinRange of the three lists", 9, "R23c:lists/", "R23s:lists/", "R23w:lists/"),
 			rolesFor(c, "C03"))
@@ -50,7 +50,7 @@ func init() {
 	}}
 	properties["C05"] = propDef{run: func(c *Ctx) *PropertyRun {
 		return pr("other", "Decided: (R19a) each stack pushes and pops at the same end of its list, each queue enqueues at the tail and dequeues at the head, Peek and Pop/Dequeue read the same index and Pop/Dequeue removes the index it read; (R19b) ring: every advance of start/end is paired with its wrap on every path, the ring slice is indexed only through start/end/(start+i)%capacity, Enqueue on a full ring evicts before writing and never otherwise, Dequeue/Peek on an empty ring change nothing and return (zero,false); (R12f) Full() ≡ Size()==capacity, Empty ≡ Size()==0; (R12b,c) the ring's size; (R20) the adapters' Size/Empty/Clear/Values delegate to the list. Not decided: the order of values as such (list semantics, C03's remainder); calculateSize arithmetic; agreement of ArrayStack.Values() order with removal order (reversed fill needs affine index reasoning)."+notBehaviour,
-			c.rule("R19", ruleR19),
+			c.rule("R19", ruleR19), c.rule("R27", ruleR27),
 			prefixFilter(c.rule("R12", ruleR12), "R12", "SIZE: ring counter, Full/Empty/Values of stacks and queues", 16, "R12b:queues/circularbuffer", "R12c:queues/circularbuffer", "R12e:queues/circularbuffer", "R12f:queues/", "R12f:stacks/"),
 			rolesFor(c, "C05"))
 	}}
